@@ -199,9 +199,12 @@ def lower_range_for(text, log):
 
 
 def lower_try(text, log):
-    """rule 8: try { B } catch (...) { H }  =>  { B' } verif_catch_N: if (verif_exc) { verif_exc = 0; H' }
-    where B' propagates exceptions of may-throw calls to the handler (VERIF_PROPAGATE -> goto) and
-    H' re-raises on `throw;`.  Only catch (...) handlers are admitted."""
+    """rule 8: try { B } catch (...) { H }  =>  { B' } verif_catch_N: if (verif_exc) { caught = verif_exc; verif_exc = 0; H' }
+    where B' propagates exceptions of may-throw calls to the handler (VERIF_PROPAGATE -> goto) and H' re-raises the
+    caught exception on `throw;`.  verif_exc is an exception KIND: 1 = an object derived from std::exception (what the
+    repository itself throws), any other non-zero value = some other type (a callback may throw anything).
+    catch (...) handles every kind; catch (const std::exception &) handles kind 1 only and every other kind leaves the
+    function.  Other handler types are outside the vocabulary."""
     n = 0
     while True:
         m = re.search(r'\btry\s*\{', text)
@@ -209,17 +212,21 @@ def lower_try(text, log):
             break
         ob = m.end() - 1
         cb = match_close(text, ob, '{', '}')
-        mc = re.compile(r'\s*catch\s*\(\s*\.\.\.\s*\)\s*\{').match(text, cb + 1)
+        mc = re.compile(r'\s*catch\s*\(\s*(\.\.\.|(?:const\s+)?std::exception\s*(?:const\s*)?&\s*\w*)\s*\)\s*\{').match(text, cb + 1)
         if not mc:
-            raise ExtractionBroken('try block without a catch (...) handler is outside the vocabulary')
+            raise ExtractionBroken('try block whose handler is neither catch (...) nor catch (const std::exception &) is outside the vocabulary')
+        cond = 'verif_exc' if mc.group(1) == '...' else 'verif_exc == 1'
         hb = mc.end() - 1
         he = match_close(text, hb, '{', '}')
+        if re.compile(r'\s*catch\b').match(text, he + 1):
+            raise ExtractionBroken('several handlers on one try block are outside the vocabulary')
         label = 'verif_catch_%d' % n
         body = text[ob + 1:cb].replace('VERIF_PROPAGATE;', 'VERIF_PROPAGATE_TO(%s);' % label)
-        handler = re.sub(r'\bthrow\s*;', 'VERIF_THROW;', text[hb + 1:he])
-        text = (text[:m.start()] + '{' + body + '} ' + label + ': if (verif_exc) { verif_exc = 0; ' + handler + '}' + text[he + 1:])
+        handler = re.sub(r'\bthrow\s*;', 'do { verif_exc = verif_caught_%d; return VERIF_DUMMY; } while (0);' % n, text[hb + 1:he])
+        text = (text[:m.start()] + '{' + body + '} ' + label + ': if (' + cond + ') { const int verif_caught_%d = verif_exc; verif_exc = 0; ' % n
+                + handler + '} VERIF_PROPAGATE;' + text[he + 1:])
         n += 1
-    log.append({'rule': 'try/catch(...) lowering', 'fired': n, 'must': '*'})
+    log.append({'rule': 'try/catch lowering', 'fired': n, 'must': '*'})
     return text
 
 
